@@ -20,4 +20,24 @@ def pad16 (n : Nat) : Nat := (0x10 - (n % 16)) &&& 0xf
 def xorBuf (out inp : Bytes) : Bytes :=
   xorBytes (out.take inp.length) inp ++ out.drop inp.length
 
+/-- `load_u64_le(bytes)`: `bytes[0] as u64 | (bytes[1] as u64) << 8 | … | (bytes[7] as u64) << 56`.
+The Rust indexes `bytes[0..=7]` (panics on a shorter slice); every caller passes an
+8-byte slice, the model reads a missing byte as 0 to stay total. -/
+def loadU64LE (bytes : Bytes) : UInt64 :=
+  (bytes.getD 0 0).toUInt64
+    ||| ((bytes.getD 1 0).toUInt64 <<< 8)
+    ||| ((bytes.getD 2 0).toUInt64 <<< 16)
+    ||| ((bytes.getD 3 0).toUInt64 <<< 24)
+    ||| ((bytes.getD 4 0).toUInt64 <<< 32)
+    ||| ((bytes.getD 5 0).toUInt64 <<< 40)
+    ||| ((bytes.getD 6 0).toUInt64 <<< 48)
+    ||| ((bytes.getD 7 0).toUInt64 <<< 56)
+
+/-- `rotr64(x, b)`: `(x >> b) | (x << (64 - b))` -/
+@[inline] def rotr64 (x : UInt64) (b : UInt64) : UInt64 :=
+  (x >>> b) ||| (x <<< (64 - b))
+
+/-- the Rust slice expression `bs[a..b]` (the callers guarantee `a ≤ b ≤ bs.len()`) -/
+def slice (bs : Bytes) (a b : Nat) : Bytes := (bs.take b).drop a
+
 end DryocVerif.Model.Utils
